@@ -28,6 +28,8 @@ JOIN_S = 40.0       # real seconds; safeguard only ("never" for a call that shou
 
 @st.composite
 def threaded_scenario(draw) -> Dict[str, Any]:
+    if draw(st.integers(0, 7)) == 0:
+        return draw(apploop_scenario())
     ops: List[Dict[str, Any]] = []
     n = draw(st.integers(1, 6))
     nreg = 0
@@ -167,7 +169,84 @@ def _wait_for(pred: Any, real_s: float = 3.0) -> bool:
     return False
 
 
+@st.composite
+def apploop_scenario(draw) -> Dict[str, Any]:
+    """The instance lives in the application's own event loop (AsyncZeroconf created in a coroutine), which keeps running after the
+    instance was closed with the blocking close() from another thread (loop.run_in_executor(None, zc.close))."""
+    return {'kind': 'apploop', 'jitter': draw(st.integers(0, 10**6)), 'browser': draw(st.booleans()), 'register': draw(st.booleans()),
+            'short_ttl': draw(st.sampled_from([1, 2, 5])), 'close_after_ms': draw(st.sampled_from([0, 300, 1500])),
+            'linger_ms': draw(st.sampled_from([12000, 25000]))}
+
+
+def check_apploop(case: Dict[str, Any]) -> Dict[str, Any]:
+    import asyncio
+
+    classes = ['app-loop-close-from-another-thread']
+    with rtsim.RTWorld(case['jitter']) as w:
+        loop = asyncio.new_event_loop()          # an RTLoop (policy of the world): compressed clock, fake sockets
+        lt = threading.Thread(target=loop.run_forever, name='harness-app-loop', daemon=True)
+        lt.start()
+        plain = PlainListener(w)
+        lst = ThreadListener(w, 0)
+        holder: Dict[str, Any] = {}
+
+        async def make() -> None:
+            from zeroconf.asyncio import AsyncServiceBrowser, AsyncZeroconf
+
+            azc = AsyncZeroconf()
+            await azc.zeroconf.async_wait_for_start()
+            azc.zeroconf.async_add_listener(plain, None)
+            if case['browser']:
+                holder['browser'] = AsyncServiceBrowser(azc.zeroconf, TYPES[0], listener=lst)
+            if case['register']:
+                await (await azc.async_register_service(sim.make_service_info(SVCS[0])))
+            holder['azc'] = azc
+
+        try:
+            asyncio.run_coroutine_threadsafe(make(), loop).result(JOIN_S)
+            zc = holder['azc'].zeroconf
+            w.zc = None
+            # a peer's records with a short TTL: they run out after the close, and the ten-second purge would report them
+            name = 'peer0.' + TYPES[0]
+            data = wire.encode({'id': 0, 'flags': 0x8400, 'qd': [], 'an': [
+                rp.wire_rr_of_ident(('PTR', TYPES[0], name), 4500),
+                rp.wire_rr_of_ident(('SRV', name, 0, 0, 99, 'peerhost.local.'), case['short_ttl'], flush=True),
+                rp.wire_rr_of_ident(('A', 'peerhost.local.', '0a000009'), case['short_ttl'], flush=True)], 'ns': [], 'ar': []})
+            w.inject(data, ('10.0.0.9', 5353))
+            w.sleep_ms(case['close_after_ms'])
+            g_call = w.mark('close-call')
+            exc: List[BaseException] = []
+            try:
+                zc.close()                     # this thread is not the loop's thread
+            except BaseException as e:  # noqa
+                exc.append(e)
+            g_done = w.mark('close-done')
+            w.sleep_ms(case['linger_ms'])      # the application's loop goes on: more than one purge period of library time
+            det = {'register': case['register'], 'browser': case['browser'], 'linger_ms': case['linger_ms']}
+            if exc:
+                raise Violation(f'close() raised {type(exc[0]).__name__}', dict(det, exc=repr(exc[0])), tag='apploop-close-raised:' + type(exc[0]).__name__)
+            late = [e for e in list(w.trace) if e['g'] > g_done]
+            if late:
+                raise Violation('instance transmitted after close() had returned', dict(det, n=len(late)), tag='apploop-send-after-close')
+            if any(g > g_done for g in plain.calls):
+                raise Violation('RecordUpdateListener called after close() had returned (the application\'s loop is still running)', det,
+                                tag='apploop-listener-after-close')
+            cb = [e for e in lst.events if e[3] > g_done]
+            if cb:
+                raise Violation('browser callback ran after close() had returned (the application\'s loop is still running)',
+                                dict(det, callback=cb[0][1:3]), tag='apploop-callback-after-close')
+            if w.errors:
+                raise Violation('exception reached the event loop: ' + str(w.errors[0].get('exception')), dict(det, errors=[(e['message'], e['exception']) for e in w.errors[:3]]),
+                                tag='loop-exception:' + str(w.errors[0].get('type')))
+        finally:
+            loop.call_soon_threadsafe(loop.stop)
+            lt.join(JOIN_S)
+    return {'nontrivial': True, 'classes': classes, 'max': {'ops': 1}, 'sample': {'case': case}}
+
+
 def check_threaded(case: Dict[str, Any]) -> Dict[str, Any]:
+    if case.get('kind') == 'apploop':
+        return check_apploop(case)
     try:
         return _check_threaded(case)
     except Violation as v:
